@@ -180,32 +180,71 @@ inline bool is_func_type(const std::string& tn) {
 struct Row { Co co; double lb, ub; };
 
 // Fourier-Motzkin: rows lb <= sum <= ub over variables `elim`; optional objective (oc, o0).
-inline bool fm_feasible(const std::vector<Row>& rows, const std::vector<int>& elim, const Co* oc, double o0,
+inline bool fm_feasible(const std::vector<Row>& rows, const std::vector<int>& elim_in, const Co* oc, double o0,
                         double& lo, double& hi) {
   const int Z = -1000000;
+  // Gaussian step first: an equality row containing a variable to eliminate defines it; substitute it
+  // everywhere (keeps Fourier-Motzkin small).  The objective is the equality  oc.x - z = -o0.
+  std::vector<Row> work = rows;
+  if (oc) { Co co = *oc; co[Z] = -1.0; work.push_back(Row{co, -o0, -o0}); }
+  std::vector<int> elim = elim_in; std::set<int> elimset(elim.begin(), elim.end());
+  for (bool progress = true; progress;) {
+    progress = false;
+    for (size_t ri = 0; ri < work.size(); ++ri) {
+      Row r = work[ri];
+      if (r.lb != r.ub || r.lb == AINF || r.lb == -AINF) continue;
+      int v = 0; double best = 0;
+      for (auto& kv : r.co) if (elimset.count(kv.first) && std::fabs(kv.second) > 1e-9 &&
+                                (std::fabs(kv.second) > best || (std::fabs(kv.second) == best && kv.first > v))) { best = std::fabs(kv.second); v = kv.first; }
+      if (best == 0) continue;
+      double c = r.co.at(v);
+      work.erase(work.begin() + ri);
+      for (auto& q : work) {
+        auto it = q.co.find(v); if (it == q.co.end() || it->second == 0.0) { if (it != q.co.end()) q.co.erase(it); continue; }
+        double f = it->second / c; q.co.erase(it);
+        for (auto& kv : r.co) if (kv.first != v) q.co[kv.first] -= f * kv.second;
+        q.lb -= f * r.lb; q.ub -= f * r.lb;
+      }
+      elimset.erase(v); elim.erase(std::find(elim.begin(), elim.end(), v));
+      progress = true; break;
+    }
+  }
   std::vector<std::pair<Co, double>> ineqs;
-  for (auto& r : rows) {
-    if (r.ub < AINF) ineqs.push_back({r.co, r.ub});
-    if (r.lb > -AINF) { Co n; for (auto& kv : r.co) n[kv.first] = -kv.second; ineqs.push_back({n, -r.lb}); }
+  for (auto& r0 : work) {
+    Co co; for (auto& kv : r0.co) if (std::fabs(kv.second) > 1e-12) co[kv.first] = kv.second;
+    if (r0.ub < AINF) ineqs.push_back({co, r0.ub});
+    if (r0.lb > -AINF) { Co n; for (auto& kv : co) n[kv.first] = -kv.second; ineqs.push_back({n, -r0.lb}); }
   }
-  if (oc) {
-    Co co = *oc; co[Z] = -1.0; ineqs.push_back({co, -o0});
-    Co n; for (auto& kv : co) n[kv.first] = -kv.second; ineqs.push_back({n, o0});
-  }
-  for (int v : elim) {
+  std::set<int> left(elim.begin(), elim.end());
+  while (!left.empty()) {
+    // greedy order: the variable whose elimination creates the fewest new rows (ties: smallest index)
+    int v = -1; double bestcost = 0;
+    for (int w : left) {
+      double np = 0, nn = 0;
+      for (auto& q : ineqs) { auto it = q.first.find(w); if (it == q.first.end()) continue; if (it->second > 1e-12) ++np; else if (it->second < -1e-12) ++nn; }
+      double cost = np * nn - np - nn;
+      if (v < 0 || cost < bestcost) { v = w; bestcost = cost; }
+    }
+    left.erase(v);
     std::vector<std::pair<Co, double>> pos, neg, rest;
     for (auto& q : ineqs) {
       auto it = q.first.find(v); double c = it == q.first.end() ? 0.0 : it->second;
       if (c > 1e-12) pos.push_back(q); else if (c < -1e-12) neg.push_back(q); else rest.push_back(q);
     }
+    if (pos.size() * neg.size() + rest.size() > 6000) throw Undecided("FM blowup");
     for (auto& cp : pos) for (auto& cn : neg) {
       double ap = cp.first.at(v), an = -cn.first.at(v); Co co;
       for (auto& kv : cp.first) if (kv.first != v) co[kv.first] += kv.second / ap;
       for (auto& kv : cn.first) if (kv.first != v) co[kv.first] += kv.second / an;
-      rest.push_back({co, cp.second / ap + cn.second / an});
+      for (auto it = co.begin(); it != co.end();) { if (std::fabs(it->second) < 1e-11) it = co.erase(it); else ++it; }
+      double rhs = cp.second / ap + cn.second / an;
+      if (co.empty() && rhs >= 0) continue;                 // 0 <= nonnegative: redundant
+      rest.push_back({co, rhs});
     }
-    ineqs.swap(rest);
-    if (ineqs.size() > 20000) throw Undecided("FM blowup");
+    // drop rows with identical coefficients, keeping the tightest right-hand side
+    std::map<Co, double> tight;
+    for (auto& q : rest) { auto it = tight.find(q.first); if (it == tight.end()) tight[q.first] = q.second; else it->second = std::min(it->second, q.second); }
+    ineqs.assign(tight.begin(), tight.end());
   }
   lo = -AINF; hi = AINF;
   for (auto& q : ineqs) {
@@ -220,6 +259,99 @@ inline bool fm_feasible(const std::vector<Row>& rows, const std::vector<int>& el
   }
   if (lo > hi + TOL) return false;
   return true;
+}
+
+
+// ---- two-phase dense simplex (Bland's rule); same contract as fm_feasible ---------------------------------
+typedef std::vector<std::vector<double>> Tab;
+inline int simplex_min(Tab& T, std::vector<int>& basis, int ncols, const std::vector<char>& allowed, double eps = 1e-9) {
+  const int m = (int)T.size() - 1;                      // returns 0 = optimal, 1 = unbounded
+  for (int it = 0; it < 20000; ++it) {
+    int e = -1;
+    for (int j = 0; j < ncols; ++j) if (allowed[j] && T[m][j] < -eps) { e = j; break; }
+    if (e < 0) return 0;
+    int lr = -1; double best = 0;
+    for (int i = 0; i < m; ++i) {
+      double a = T[i][e];
+      if (a > eps) {
+        double ratio = T[i].back() / a;
+        if (lr < 0 || ratio < best - 1e-12 || (std::fabs(ratio - best) <= 1e-12 && basis[i] < basis[lr])) { best = ratio; lr = i; }
+      }
+    }
+    if (lr < 0) return 1;
+    double pv = T[lr][e]; for (auto& x : T[lr]) x /= pv;
+    for (int i = 0; i <= m; ++i) if (i != lr) { double f = T[i][e]; if (f != 0.0) for (size_t j = 0; j < T[i].size(); ++j) T[i][j] -= f * T[lr][j]; }
+    basis[lr] = e;
+  }
+  throw Undecided("simplex iteration limit");
+}
+
+inline bool lp_feasible(const std::vector<Row>& rows, const std::vector<int>& elim, const Co* oc, double o0, double& lo, double& hi) {
+  std::vector<int> vs(elim.begin(), elim.end()); std::sort(vs.begin(), vs.end()); vs.erase(std::unique(vs.begin(), vs.end()), vs.end());
+  std::map<int, int> idx; for (size_t k = 0; k < vs.size(); ++k) idx[vs[k]] = (int)k;
+  const int n = (int)vs.size();
+  std::vector<std::pair<std::vector<double>, double>> ineq;
+  for (auto& r : rows) {
+    std::vector<double> a(n, 0.0);
+    for (auto& kv : r.co) { auto it = idx.find(kv.first); if (it == idx.end()) throw Undecided("LP residual variables"); a[it->second] += kv.second; }
+    if (r.ub < AINF) ineq.push_back({a, r.ub + 1e-9 * (1 + std::fabs(r.ub))});
+    if (r.lb > -AINF) { std::vector<double> na(a); for (auto& x : na) x = -x; ineq.push_back({na, -r.lb + 1e-9 * (1 + std::fabs(r.lb))}); }
+  }
+  const int m = (int)ineq.size(), ncols = 2 * n + 2 * m;
+  Tab T; std::vector<int> basis;
+  for (int i = 0; i < m; ++i) {
+    std::vector<double> r(ncols + 1, 0.0);
+    for (int j = 0; j < n; ++j) { r[j] = ineq[i].first[j]; r[n + j] = -ineq[i].first[j]; }
+    r[ncols] = ineq[i].second; r[2 * n + i] = 1.0;
+    if (ineq[i].second < 0) for (auto& x : r) x = -x;
+    r[2 * n + m + i] = 1.0;
+    T.push_back(r); basis.push_back(2 * n + m + i);
+  }
+  std::vector<double> cost(ncols + 1, 0.0);
+  for (int i = 0; i < m; ++i) for (int j = 0; j <= ncols; ++j) if (j < 2 * n + m || j == ncols) cost[j] -= T[i][j];
+  T.push_back(cost);
+  std::vector<char> allowed(ncols, 1);
+  simplex_min(T, basis, ncols, allowed);
+  if (-T[m].back() > 1e-7) return false;
+  for (int j = 2 * n + m; j < ncols; ++j) allowed[j] = 0;
+  for (int i = 0; i < m; ++i) if (basis[i] >= 2 * n + m) {
+    for (int j = 0; j < 2 * n + m; ++j) if (std::fabs(T[i][j]) > 1e-9) {
+      double pv = T[i][j]; for (auto& x : T[i]) x /= pv;
+      for (int i2 = 0; i2 <= m; ++i2) if (i2 != i && T[i2][j] != 0.0) { double f = T[i2][j]; for (size_t q = 0; q < T[i2].size(); ++q) T[i2][q] -= f * T[i][q]; }
+      basis[i] = j; break;
+    }
+  }
+  lo = -AINF; hi = AINF;
+  if (!oc) return true;
+  double res[2];
+  for (int pass = 0; pass < 2; ++pass) {
+    double sgn = pass == 0 ? 1.0 : -1.0;
+    Tab T2(T.begin(), T.begin() + m); std::vector<int> b2 = basis;
+    std::vector<double> c(ncols + 1, 0.0);
+    for (auto& kv : *oc) { auto it = idx.find(kv.first); if (it == idx.end()) throw Undecided("LP residual variables"); c[it->second] += sgn * kv.second; c[n + it->second] -= sgn * kv.second; }
+    for (int i = 0; i < m; ++i) { double f = c[b2[i]]; if (f != 0.0) for (size_t q = 0; q < c.size(); ++q) c[q] -= f * T2[i][q]; }
+    T2.push_back(c);
+    int st = simplex_min(T2, b2, ncols, allowed);
+    res[pass] = st == 1 ? -AINF : -T2[m].back();
+  }
+  lo = res[0] > -AINF ? res[0] + o0 : -AINF;
+  hi = res[1] > -AINF ? -res[1] + o0 : AINF;
+  return true;
+}
+
+struct LPFMDisagree : std::runtime_error { explicit LPFMDisagree(const std::string& s) : std::runtime_error(s) {} };
+
+// Simplex decides; Fourier-Motzkin is run as an independent second opinion on small systems.
+inline bool lin_feasible(const std::vector<Row>& rows, const std::vector<int>& elim, const Co* oc, double o0, double& lo, double& hi) {
+  bool ok = lp_feasible(rows, elim, oc, o0, lo, hi);
+  std::set<int> es(elim.begin(), elim.end());
+  if (rows.size() <= 14 && es.size() <= 6) {
+    double lo2, hi2; bool ok2;
+    try { ok2 = fm_feasible(rows, elim, oc, o0, lo2, hi2); } catch (Undecided&) { return ok; }
+    auto close = [](double a, double b) { return a == b || std::fabs(a - b) <= 1e-5 * std::max(1.0, std::max(std::fabs(a), std::fabs(b))); };
+    if (ok != ok2 || (ok && oc && !(close(lo, lo2) && close(hi, hi2)))) throw LPFMDisagree("LP vs FM");
+  }
+  return ok;
 }
 
 struct SearchOut { bool found = false; bool has_best = false; double best = 0; std::vector<double> wit; std::vector<char> wit_known; };
@@ -383,7 +515,7 @@ struct Delivered {
 
   void leaf(const Assign& a, bool want_obj, SearchOut& out) const {
     std::vector<int> unknown; for (int i = 0; i < nv(); ++i) if (!a.has(i)) unknown.push_back(i);
-    std::vector<Row> rows; std::vector<std::vector<Row>> disj; Co co;
+    std::vector<Row> rows; std::vector<std::vector<std::vector<Row>>> disj; Co co;   // disj: alternatives, each a list of rows
     for (int i : unknown) { Co c1; c1[i] = 1.0; rows.push_back({c1, vars[i].lb > -1e300 ? vars[i].lb : -AINF, vars[i].ub < 1e300 ? vars[i].ub : AINF}); }
     for (auto& c : cons) {
       switch (c.k) {
@@ -400,19 +532,33 @@ struct Delivered {
           int ck = c.ck; bool none = false;
           if (!val) { switch (c.ck) { case 0: none = true; break; case 1: ck = -2; break; case 2: ck = -1; break; case -1: ck = 2; break; default: ck = 1; } }
           double rhs = (c.lb == -AINF ? c.ub : c.lb) - cst;
-          if (none) { disj.push_back({Row{co, rhs + EPS_STRICT, AINF}, Row{co, -AINF, rhs - EPS_STRICT}}); break; }
+          if (none) { disj.push_back({{Row{co, rhs + EPS_STRICT, AINF}}, {Row{co, -AINF, rhs - EPS_STRICT}}}); break; }
           if (ck == 0) rows.push_back({co, rhs, rhs}); else if (ck == 1) rows.push_back({co, rhs, AINF});
           else if (ck == -1) rows.push_back({co, -AINF, rhs}); else if (ck == 2) rows.push_back({co, rhs + EPS_STRICT, AINF});
           else rows.push_back({co, -AINF, rhs - EPS_STRICT});
         }
         break; }
       case SOS: {
-        for (int v : c.args) if (!a.has(v)) throw Undecided("SOS over unknown continuous");
+        // members in reference order; an alternative = an admissible support (SOS1: one position, SOS2: two
+        // adjacent positions); members outside the support are 0 (checked if known, a row x=0 if unknown)
         std::vector<int> order(c.args.size()); for (size_t i = 0; i < order.size(); ++i) order[i] = (int)i;
         std::stable_sort(order.begin(), order.end(), [&](int i, int j) { return c.weights[i] < c.weights[j]; });
-        std::vector<int> nz; for (size_t pos = 0; pos < order.size(); ++pos) if (std::fabs(a.v[c.args[order[pos]]]) > TOL) nz.push_back((int)pos);
-        if (c.sos_type == 1 && nz.size() > 1) return;
-        if (c.sos_type == 2 && (nz.size() > 2 || (nz.size() == 2 && nz[1] - nz[0] != 1))) return;
+        int n = (int)order.size(), width = c.sos_type == 1 ? 1 : 2;
+        std::vector<std::vector<Row>> alts;
+        for (int s0 = 0; s0 + width <= std::max(n, width); ++s0) {
+          std::vector<Row> alt; bool ok = true;
+          for (int pos = 0; pos < n && ok; ++pos) {
+            if (pos >= s0 && pos < s0 + width) continue;
+            int v = c.args[order[pos]];
+            if (a.has(v)) { if (std::fabs(a.v[v]) > TOL) ok = false; }
+            else { Co c1; c1[v] = 1.0; alt.push_back(Row{c1, 0.0, 0.0}); }
+          }
+          if (ok) alts.push_back(alt);
+          if (n <= width) break;
+        }
+        if (alts.empty()) return;
+        bool trivial = false; for (auto& al : alts) if (al.empty()) trivial = true;
+        if (!trivial) disj.push_back(alts);
         break; }
       case FUNC: {
         if ((c.res >= 0 && !a.has(c.res)) || !args_known(c, a)) throw Undecided("functional over unknown continuous: " + c.tn);
@@ -432,19 +578,55 @@ struct Delivered {
     }
     Co oc; double o0 = 0; bool use_obj = want_obj && has_obj;
     if (use_obj) o0 = lin_of(obj, a, oc);
-    if (disj.size() > 6) throw Undecided("too many disjunctions");
-    size_t nalt = 1; for (auto& d : disj) nalt *= d.size();
+    size_t nalt = 1; for (auto& d : disj) { nalt *= d.size(); if (nalt > 4096) throw Undecided("too many disjunctions"); }
     for (size_t k = 0; k < nalt; ++k) {
       std::vector<Row> rr = rows; size_t q = k;
-      for (auto& d : disj) { rr.push_back(d[q % d.size()]); q /= d.size(); }
+      for (auto& d : disj) { for (auto& r1 : d[q % d.size()]) rr.push_back(r1); q /= d.size(); }
       double lo, hi;
-      if (fm_feasible(rr, unknown, use_obj ? &oc : nullptr, o0, lo, hi)) {
+      if (lin_feasible(rr, unknown, use_obj ? &oc : nullptr, o0, lo, hi)) {
         out.found = true;
         if (use_obj) { double val = sense == 1 ? hi : lo;
           if (!out.has_best || (sense == 1 && val > out.best) || (sense != 1 && val < out.best)) { out.best = val; out.has_best = true; } }
         if (out.wit.empty()) { out.wit = a.v; out.wit_known = a.known; }
         if (!use_obj) break;
       }
+    }
+  }
+
+  // bounds of the unknown variables implied by the declared bounds and the linear rows (ALG, LFC) under the
+  // partial assignment a; only consequences are derived, so restricting a search to them loses no solution
+  void implied_bounds(const Assign& a, std::vector<double>& L, std::vector<double>& U) const {
+    L.resize(nv()); U.resize(nv());
+    for (int i = 0; i < nv(); ++i) { L[i] = vars[i].lb > -1e300 ? vars[i].lb : -AINF; U[i] = vars[i].ub < 1e300 ? vars[i].ub : AINF; }
+    std::vector<Row> rows; Co co;
+    for (auto& c : cons) {
+      try {
+        if (c.k == ALG) { double cst = lin_of(c.body, a, co); if (!co.empty()) rows.push_back({co, c.lb - cst, c.ub - cst}); }
+        else if ((c.k == LFC || c.k == QFC) && c.res >= 0) {
+          double cst = lin_of(c.body, a, co) + c.const_term;
+          if (a.has(c.res)) cst -= a.v[c.res]; else co[c.res] -= 1.0;
+          if (!co.empty()) rows.push_back({co, -cst, -cst});
+        }
+      } catch (Undecided&) { }
+    }
+    for (int round = 0; round < 20; ++round) {
+      bool changed = false;
+      for (auto& r : rows) for (auto& kj : r.co) {
+        int j = kj.first; double cj = kj.second; if (std::fabs(cj) < 1e-12) continue;
+        double smin = 0, smax = 0;                      // range of the other terms
+        for (auto& ki : r.co) if (ki.first != j) {
+          double c = ki.second, l = L[ki.first], u = U[ki.first];
+          smin += c > 0 ? c * l : c * u; smax += c > 0 ? c * u : c * l;
+        }
+        // r.lb - smax <= cj*xj <= r.ub - smin
+        double lo = r.lb - smax, hi = r.ub - smin;
+        if (std::isnan(lo)) lo = -AINF; if (std::isnan(hi)) hi = AINF;
+        double nl = cj > 0 ? lo / cj : hi / cj, nu = cj > 0 ? hi / cj : lo / cj;
+        if (vars[j].ty == 1) { if (nl > -AINF) nl = std::ceil(nl - 1e-7); if (nu < AINF) nu = std::floor(nu + 1e-7); }
+        if (nl > L[j] + 1e-9) { L[j] = nl; changed = true; }
+        if (nu < U[j] - 1e-9) { U[j] = nu; changed = true; }
+      }
+      if (!changed) break;
     }
   }
 
@@ -455,8 +637,17 @@ struct Delivered {
     int best = -1; double bw = 0;
     for (int i = 0; i < nv(); ++i) if (!a.has(i) && vars[i].ty == 1) { double w = vars[i].ub - vars[i].lb; if (best < 0 || w < bw) { best = i; bw = w; } }
     if (best < 0) { leaf(a, want_obj, out); return; }
-    if (bw > 64) throw Undecided("large integer aux domain");
-    int lo = (int)std::ceil(vars[best].lb - 1e-9), hi = (int)std::floor(vars[best].ub + 1e-9);
+    double blo = vars[best].lb, bhi = vars[best].ub;
+    if (bw > 64) {
+      // declared domain too wide to enumerate: use bounds implied by the linear rows (interval propagation)
+      std::vector<double> L, U; implied_bounds(a, L, U);
+      best = -1;
+      for (int i = 0; i < nv(); ++i) if (!a.has(i) && vars[i].ty == 1) { double w = U[i] - L[i]; if (best < 0 || w < bw) { best = i; bw = w; } }
+      if (best < 0 || !(bw <= 64)) throw Undecided("large integer aux domain");
+      blo = L[best]; bhi = U[best];
+      if (blo > bhi + 1e-9) return;
+    }
+    int lo = (int)std::ceil(blo - 1e-9), hi = (int)std::floor(bhi + 1e-9);
     for (int v = lo; v <= hi; ++v) {
       Assign a2 = a; a2.set(best, v); dfs(a2, want_obj, out);
       if (out.found && !(want_obj && has_obj)) return;
